@@ -594,7 +594,21 @@ func (s *sched) pick(me *Thread) *Thread {
 				s.forcedEp, s.forcedRounds = s.epoch, 0
 			}
 			any := false
-			if s.forcedRounds < maxForcedRounds {
+			hasQ := false
+			for _, t := range s.order {
+				if !t.done && t.op == OpQuiesce && !t.forced {
+					hasQ = true
+				}
+			}
+			// Threads parked as spinners are resumed when nothing else can run.  If somebody waits for
+			// quiescence a few confirmation rounds suffice (a real spin loop cycles again at once); if
+			// nobody does, a "spinner" may just be a long read-only loop (a harness thread reading
+			// through an engine that is not instrumented) and is resumed for as long as it takes.
+			limit := maxForcedRounds
+			if !hasQ {
+				limit = 5000
+			}
+			if s.forcedRounds < limit {
 				for _, t := range s.order {
 					if !t.done && t.op == OpSpin && !t.forced {
 						t.forced, any = true, true
